@@ -105,11 +105,28 @@ impl Key {
     }
 }
 
+thread_local! {
+    /// pool keys already used in the hierarchy under construction (no key is shared between zones:
+    /// hickory's trust anchors are bare public keys, a zone re-using the anchor's key would be trusted by that alone)
+    static POOL_USED: std::cell::RefCell<Vec<usize>> = const { std::cell::RefCell::new(Vec::new()) };
+}
+
 pub fn gen_keyspec(rng: &mut Rng, alg: u8, flags: u16, signs_keyset: bool, signs_data: bool) -> KeySpec {
-    let alg = if alg == 13 && P256_POOL.is_empty() { 15 } else { alg };
+    let mut alg = alg;
+    let mut pick: Option<usize> = None;
+    if alg == 13 {
+        let free: Vec<usize> = POOL_USED.with(|u| (0..P256_POOL.len()).filter(|i| !u.borrow().contains(i)).collect());
+        if free.is_empty() {
+            alg = 15;
+        } else {
+            let i = free[rng.usize_below(free.len())];
+            POOL_USED.with(|u| u.borrow_mut().push(i));
+            pick = Some(i);
+        }
+    }
     let material = match alg {
         15 => rng.bytes(32),
-        13 => unhex(P256_POOL[rng.usize_below(P256_POOL.len())]),
+        13 => unhex(P256_POOL[pick.unwrap()]),
         _ => rng.bytes(57),
     };
     KeySpec { alg, flags, material, signs_keyset, signs_data, publish: true }
@@ -286,7 +303,8 @@ pub fn ds_rdata(owner: &Name, key: &Key, digest_type: u8, rng: &mut Rng) -> Vec<
 
 /// Generate one hierarchy. `idx` rotates the link mode of the first leaf so that all classes are
 /// covered across a run; `collision` (if found) is planted into one signed zone of some hierarchies.
-pub fn gen_hier(rng: &mut Rng, idx: u64, collision: Option<&Collision>) -> Hier {
+pub fn gen_hier(rng: &mut Rng, idx: u64, collision: Option<&Collision>, attacker_tags: &[u16]) -> Hier {
+    POOL_USED.with(|u| u.borrow_mut().clear());
     let now = 1_700_000_000u32;
     let n_tld = rng.urange(1, 2);
     let n_leaf = rng.urange(1, 3);
@@ -357,6 +375,26 @@ pub fn gen_hier(rng: &mut Rng, idx: u64, collision: Option<&Collision>) -> Hier 
             }
             ks.push(KeySpec { alg: 15, flags, material: second.clone(), signs_keyset: false, signs_data: false, publish: true });
             zones[zi].mode = format!("{}+collision", zones[zi].mode);
+        }
+    }
+    // Some Ed25519 KSKs get a key tag for which the attacker holds a key of his own (an attacker grinds
+    // his key to the victim's tag; here the victim's key is ground instead: same situation, cheaper).
+    if !attacker_tags.is_empty() {
+        for z in zones.iter_mut() {
+            if !z.signed || z.mode.contains("collision") || !rng.chance(1, 3) {
+                continue;
+            }
+            if let Some(k) = z.keys.iter_mut().find(|k| k.signs_keyset && k.alg == 15) {
+                for _ in 0..20_000 {
+                    let seed = rng.bytes(32);
+                    let tag = refsign::key_tag(&refsign::dnskey_rdata(k.flags, 15, &ed25519_public(&seed)));
+                    if attacker_tags.contains(&tag) {
+                        k.material = seed;
+                        z.mode = format!("{}+tagmatch", z.mode);
+                        break;
+                    }
+                }
+            }
         }
     }
     // delegations (NS + DS in the parent)
@@ -643,14 +681,51 @@ impl Truth {
     }
 }
 
-/// semantic normal form of RDATA for membership tests: embedded names lower-cased
+/// lenient reading of an RFC 4034 section 4.1.2 type bitmap into the set of types it denotes
+fn bitmap_types(b: &[u8]) -> BTreeSet<u16> {
+    let mut out = BTreeSet::new();
+    let mut i = 0;
+    while i + 2 <= b.len() {
+        let w = b[i] as u16;
+        let len = b[i + 1] as usize;
+        let bytes = &b[i + 2..(i + 2 + len).min(b.len())];
+        for (k, x) in bytes.iter().enumerate() {
+            for bit in 0..8 {
+                if x & (0x80 >> bit) != 0 {
+                    out.insert((w << 8) | (k * 8 + bit) as u16);
+                }
+            }
+        }
+        i += 2 + len;
+    }
+    out
+}
+
+/// semantic normal form of RDATA for membership tests: embedded names lower-cased, NSEC / NSEC3
+/// type bitmaps re-encoded canonically (a non-canonical encoding of the same type set denotes the
+/// same record; hickory keeps the original encoding for signature checks but compares type sets)
 pub fn canon(t: u16, rd: &[u8]) -> Vec<u8> {
     if t == chain::T_NSEC {
-        // next domain name: fold for comparison purposes
         if let Some((n, off)) = refzone::read_wire_name(rd, 0) {
             let mut v = refzone::wire_name(&n);
-            v.extend_from_slice(&rd[off..]);
+            v.extend(chain::type_bitmap(&bitmap_types(&rd[off..])));
             return v;
+        }
+        return rd.to_vec();
+    }
+    if t == chain::T_NSEC3 {
+        // alg, flags, iterations(2), salt length, salt, hash length, hash, bitmap
+        if rd.len() >= 5 {
+            let s = 5 + rd[4] as usize;
+            if rd.len() > s {
+                let hlen = rd[s] as usize;
+                let b = s + 1 + hlen;
+                if rd.len() >= b {
+                    let mut v = rd[..b].to_vec();
+                    v.extend(chain::type_bitmap(&bitmap_types(&rd[b..])));
+                    return v;
+                }
+            }
         }
         return rd.to_vec();
     }
